@@ -17,7 +17,8 @@ def run(R):
     import dreye
     from dreye.api.units.pint import ureg
     n = 150 if R.tier == "quick" else 3000
-    R.rule = ("wavelengths 100-2000 nm, spectra scalar / 1-D / N-D (wavelength on any axis via axis=, or last-axis "
+    R.rule = ("wavelengths 100-2000 nm, spectra scalar / 1-D / N-D (wavelength on any axis via axis=, the axis named from the front "
+              "(0..rank-1) or from the end (-rank..-1), as python int or numpy integer; or last-axis "
               "broadcasting), prefixes ''/milli/micro/nano, plain arrays, plain arrays with irr_units=/flux_units=, pint quantities "
               "in the canonical units (I, E, nm) and in compatible other units (mW/m^2/nm, uW/cm^2/nm, W/m^2/um, kW.., microE, "
               "umol/m^2/s/nm, mol/cm^2/s/nm, ..; wavelengths in um, m, mm, angstrom), both directions, the numeric round trip and "
@@ -45,8 +46,17 @@ def run(R):
             rank = int(rng.integers(2, 4)); shp = [int(rng.integers(1, 4)) for _ in range(rank)]
             axis = int(rng.integers(0, rank)); shp[axis] = nl
             spec = dyadic(rng, 0, 8, 6, size=tuple(shp)); lamv = lam
+        axis_arg = axis
         if shape == "nd_axis":
             units = False   # np.apply_along_axis strips quantities
+            # how the caller names the wavelength axis: counted from the front (0 .. rank-1), from the end (-rank .. -1: the same
+            # axis), as a python int or a numpy integer
+            ra = R.rng(4, k)
+            how = str(ra.choice(["from-front", "from-end"]))
+            axis_arg = axis if how == "from-front" else axis - spec.ndim
+            if ra.integers(3) == 0:
+                axis_arg = np.int64(axis_arg); how += ":numpy-int"
+            R.count("axis-named:%s" % how); R.count("axis-value:%d-of-rank-%d" % (int(axis_arg), spec.ndim))
         # how the quantities are written (the model receives the physical values in I / E / nm as exact rationals):
         #   quantity in the canonical unit | quantity in a compatible other unit | plain numbers with irr_units= / flux_units=
         rv = R.rng(3, k)
@@ -71,7 +81,7 @@ def run(R):
         if sfac != 1:
             spec = spec_mag * float(sfac)                   # the same spectrum as plain numbers in I / E (to rounding)
         c = dict(k=k, direction=direction, prefix=pre, shape=shape, units=units, written_as=ukind, spectrum_unit=sunit, wavelength_unit=lunit,
-                 spectrum=spec_mag, wavelengths=lam_mag, axis=axis)
+                 spectrum=spec_mag, wavelengths=lam_mag, axis=axis, axis_as_given=(None if axis_arg is None else int(axis_arg)))
         R.count("written-as:%s" % ukind)
         if ukind in ("compatible", "units-argument"):
             R.count("spectrum-unit:%s" % sunit); R.count("wavelength-unit:%s" % lunit)
@@ -87,17 +97,17 @@ def run(R):
 
         def impl():
             # history: the same grid was converted with another prefix just before (results must not depend on it)
-            fn(spec, lamv, prefix=other, axis=axis)
+            fn(spec, lamv, prefix=other, axis=axis_arg)
             arg = spec_mag * ureg(sunit) if units else spec_mag
             lamarg = lam_mag * ureg(lunit) if units else lamv
             ukw = {}
             if ukind == "units-argument":
                 ukw = {"irr_units": sunit} if direction == "irr2flux" else {"flux_units": sunit}
-            o = fn(arg, lamarg, prefix=pre, axis=axis, **ukw)
-            o_num = fn(spec, lamv, prefix=pre, axis=axis, return_units=False)
+            o = fn(arg, lamarg, prefix=pre, axis=axis_arg, **ukw)
+            o_num = fn(spec, lamv, prefix=pre, axis=axis_arg, return_units=False)
             mag = o.magnitude if hasattr(o, "magnitude") else o
             kw = {"flux_units": out_unit} if direction == "irr2flux" else {"irr_units": out_unit}
-            rt = back(np.asarray(o_num), lamv, axis=axis, return_units=False, **kw)
+            rt = back(np.asarray(o_num), lamv, axis=axis_arg, return_units=False, **kw)
             # the quantity that came out (in the prefixed unit) fed back as it is: the inverse must recover the spectrum
             rtq = back(o, lamarg).to(uname).magnitude if hasattr(o, "units") else None
             return (np.asarray(mag, dtype=float), np.asarray(o_num, dtype=float), np.asarray(rt, dtype=float), hasattr(o, "units"),
